@@ -219,6 +219,57 @@ def main():
                                "cut_at": k, "length": len(data)})
                 break
         r.count(("trunc2", i), nontrivial=True)
+        # the same cuts through the other public entry point that reads a whole .dods body: open_dods_url
+        from pydap.client import open_dods_url
+
+        def via_open_dods_url(raw):
+            def cutapp(environ, start_response):
+                start_response("200 OK", [("Content-Type", "application/octet-stream"), ("Content-Length", str(len(raw)))])
+                return [raw]
+            dsx = open_dods_url("http://localhost:8001/d.dods", application=cutapp)
+            out = []
+            for v in dsx.values():
+                out.append(repr_tree(list(v.iterdata()) if hasattr(v, "iterdata") and not hasattr(v, "shape") else
+                                     [c.data for c in v.children()] if hasattr(v, "children") and not hasattr(v, "iterdata") else v.data, np))
+            return out
+        try:
+            full2 = via_open_dods_url(body)
+        except Exception:
+            full2 = None
+        if full2 is not None:
+            for k in sorted(set(rng.sample(range(len(body)), min(len(body), 40 if T == "quick" else 200))) | {len(body) - 1, len(body) - 4}):
+                try:
+                    got2 = via_open_dods_url(body[:k])
+                except BaseException:  # noqa  (a bare StopIteration is an error too)
+                    got2 = None
+                trunc2_checked += 1
+                if got2 is not None and got2 != full2:
+                    direct.append({"law": "a DAP2 body cut short raises or decodes to the complete data (open_dods_url)",
+                                   "dataset": repr(desc)[:800], "cut_at": k, "length": len(body)})
+                    break
+    # ---------------------------------------------------------- a response much larger than any buffer: 12000 records (~190 KiB)
+    from pydap.model import BaseType, DatasetType, SequenceType
+    big = DatasetType("big")
+    bq = SequenceType("q")
+    bq["a"] = BaseType("a")
+    bq["b"] = BaseType("b")
+    nbig = 12000
+    bq.data = np.array([(j, j * 0.5) for j in range(nbig)], dtype=[("a", "i4"), ("b", "f8")])
+    big["q"] = bq
+    bigapp = BaseHandler(big)
+    want_big = [(j, j * 0.5) for j in range(nbig)]
+    for sizes in ([4], [17], [1000], [4096], [65536], [10 ** 7], [rng.choice([3, 700, 40000]) for _ in range(5)]):
+        r.count(("big", tuple(sizes)))
+        try:
+            cbig = open_url("http://localhost:8001/", application=Rechunk(bigapp, sizes))
+            got_big = [(int(x), float(y)) for x, y in cbig["q"].iterdata()]
+        except Exception as e:  # noqa
+            got_big = "raised " + repr(e)[:200]
+        seq_checked += 1
+        if got_big != want_big:
+            direct.append({"law": "records do not depend on the chunking of the response (a response of ~190 KiB)", "chunk_sizes": sizes,
+                           "got": got_big if isinstance(got_big, str) else "%d records, first difference at %s" % (
+                               len(got_big), next((j for j, (x, y) in enumerate(zip(got_big, want_big)) if x != y), min(len(got_big), nbig)))})
     r.extra["rechunked_reads"] = seq_checked
     r.extra["dap2_truncations_checked"] = trunc2_checked
 
@@ -231,7 +282,8 @@ def main():
         little = rng.random() < 0.5
         ser = D.serialize([(v, v.values) for v in vs], little)
         payload = b"".join(x + c for x, c in ser)
-        raw = D.respond(D.render_dmr(root), payload, little, D.partition_sizes(rng, len(payload), rng.choice(["one", 3, "random"])))
+        raw = D.respond(D.render_dmr(root), payload, little, D.partition_sizes(rng, len(payload), rng.choice(["one", 3, "random"])),
+                        flag_all=rng.random() < 0.6)
 
         def dec(b):
             try:
